@@ -51,6 +51,11 @@ def mk_RTLIRTranslator( _StructuralTranslator, _BehavioralTranslator ):
           translate_component( child, components )
 
         name = s.structural.component_unique_name[m]
+        # An explicit module name given by the user is the name of the
+        # emitted definition
+        explicit_name = getattr( s.structural, 'component_explicit_module_name', {} ).get( m )
+        if explicit_name:
+          name = explicit_name
         src = s.rtlir_tr_component(
             get_component_nspace( s.behavioral, m ),
             get_component_nspace( s.structural, m ),
@@ -65,7 +70,7 @@ def mk_RTLIRTranslator( _StructuralTranslator, _BehavioralTranslator ):
             f"component {m} is translated into module {name}, but a " \
             f"component with a different translation result already uses " \
             f"that module name! Please give the components different " \
-            f"class names or construct parameters."
+            f"class names, construct parameters or explicit module names."
         s._gen_hierarchy_metadata( 'decl_type_vector', 'decl_type_vector' )
         s._gen_hierarchy_metadata( 'decl_type_array', 'decl_type_array'   )
         s._gen_hierarchy_metadata( 'decl_type_struct', 'decl_type_struct' )
